@@ -67,18 +67,24 @@ type c07k struct {
 
 	mustFan  map[string]int // memo: fn|param -> 0 running, 1 yes, 2 no
 	mustCall map[string]int
+
+	out  *c07flow // aliases of the maps handed to the threshold subscribers
+	nOut int
+
+	capDone bool
+	capRems []c07capRemoval // removals from entries reached from the function that maintains exemptEntries
 }
 
 func newC07k(c *rt.Ctx) *c07k {
 	pkg := c.SSAPkg("core/parsigdb")
+	c07resolveFields(c)
 	return &c07k{c: c, pkg: pkg, ix: an.H07NewIndex(pkg), mustFan: map[string]int{}, mustCall: map[string]int{}}
 }
 
-var (
-	c07entries    = isFieldMap(memdb + ".entries")
-	c07keysByDuty = isFieldMap(memdb + ".keysByDuty")
-	c07exempt     = isFieldMap(memdb + ".exemptEntries")
-)
+// predicates over the state maps of MemDB (the fields are resolved by type, see c07resolveFields)
+func c07entries(v ssa.Value) bool    { return isFieldMap(c07f("entries"))(v) }
+func c07keysByDuty(v ssa.Value) bool { return isFieldMap(c07f("keysByDuty"))(v) }
+func c07exempt(v ssa.Value) bool     { return isFieldMap(c07f("exemptEntries"))(v) }
 
 func c07isBuiltin(v ssa.Value, name string) (*ssa.Call, bool) {
 	call, ok := an.Resolve(v).(*ssa.Call)
@@ -230,218 +236,7 @@ func c07wholeParam(v ssa.Value) *ssa.Parameter {
 }
 
 // ---------------------------------------------------------------------------------------------
-// P2: the threshold fan-out
-
-// sameMap: v is map m or an in-package copy of it (`clone(output)`: a static in-package callee
-// given the map and returning a map of the same type).
-func (k *c07k) sameMap(v, m ssa.Value) bool {
-	for i := 0; i < 4; i++ {
-		v = an.Resolve(v)
-		if v == m {
-			return true
-		}
-		call, ok := v.(*ssa.Call)
-		if !ok || k.ix.Callee(&call.Call) == nil || !types.Identical(call.Type(), m.Type()) {
-			return false
-		}
-		var next ssa.Value
-		for _, a := range call.Call.Args {
-			if types.Identical(a.Type(), m.Type()) {
-				next = a
-			}
-		}
-		if next == nil {
-			return false
-		}
-		v = next
-	}
-	return false
-}
-
-// flowsToFan: value v (a map) is handed, possibly copied, possibly through in-package callees, to a
-// call through the threshSubs field.
-func (k *c07k) flowsToFan(v ssa.Value, depth int) bool {
-	if depth > 4 || v.Referrers() == nil {
-		return false
-	}
-	for _, ref := range *v.Referrers() {
-		switch x := ref.(type) {
-		case ssa.CallInstruction:
-			cc := x.Common()
-			for j, a := range cc.Args {
-				if a != v {
-					continue
-				}
-				if an.FieldCall(memdb + ".threshSubs")(cc) {
-					return true
-				}
-				if g := k.ix.Callee(cc); g != nil && j < len(g.Params) && k.flowsToFan(g.Params[j], depth+1) {
-					return true
-				}
-				if val := x.Value(); val != nil && k.ix.Callee(cc) != nil && types.Identical(val.Type(), v.Type()) && k.flowsToFan(val, depth+1) {
-					return true
-				}
-			}
-		case *ssa.Store: // spilled local (captured by a closure / address taken)
-			if al, ok := x.Addr.(*ssa.Alloc); ok && x.Val == v && an.UniqueStore(al) == v {
-				for _, r2 := range *al.Referrers() {
-					if ld, ok := r2.(*ssa.UnOp); ok && ld.Op == token.MUL && k.flowsToFan(ld, depth+1) {
-						return true
-					}
-				}
-			}
-		case *ssa.Phi:
-			if k.flowsToFan(x, depth+1) {
-				return true
-			}
-		}
-	}
-	return false
-}
-
-// fanEffect returns the predicate "this instruction starts the threshold fan-out" for function fn
-// whose value m (may be nil) is the output map: a load of the threshSubs field, or a call of an
-// in-package function that does so on every path to its return (given that the map is non-empty).
-func (k *c07k) fanEffect(m ssa.Value) func(ssa.Instruction) bool {
-	return func(in ssa.Instruction) bool {
-		if isLoadOfField(in, memdb+".threshSubs") {
-			return true
-		}
-		ci, ok := in.(ssa.CallInstruction)
-		if !ok {
-			return false
-		}
-		if _, isDefer := in.(*ssa.Defer); isDefer {
-			return false
-		}
-		if _, isGo := in.(*ssa.Go); isGo {
-			return false
-		}
-		g := k.ix.Callee(ci.Common())
-		if g == nil {
-			return false
-		}
-		j := -1
-		if m != nil {
-			for i, a := range ci.Common().Args {
-				if k.sameMap(a, m) {
-					j = i
-				}
-			}
-		}
-		return k.mustFanOut(g, j)
-	}
-}
-
-func (k *c07k) mustFanOut(g *ssa.Function, j int) bool {
-	key := an.FuncName(g) + "|" + string(rune('0'+j+1))
-	switch k.mustFan[key] {
-	case 1:
-		return true
-	case 2:
-		return false
-	}
-	if _, running := k.mustFan[key]; running {
-		return false
-	}
-	k.mustFan[key] = 0
-	var m ssa.Value
-	env := an.H07Env{}
-	if j >= 0 && j < len(g.Params) {
-		m = g.Params[j]
-		env.LenMin = func(x ssa.Value) (int64, bool) { return 1, an.Resolve(x) == m }
-	}
-	_, esc := an.H07Path(g, nil, nil, k.fanEffect(m), env.Prune(), nil)
-	if esc {
-		k.mustFan[key] = 2
-	} else {
-		k.mustFan[key] = 1
-	}
-	return !esc
-}
-
-// mayWriteMapParam: g (transitively) assigns an element of its map parameter j.
-func (k *c07k) mayWriteMapParam(g *ssa.Function, j, depth int) bool {
-	if depth > 3 || j >= len(g.Params) {
-		return false
-	}
-	p := g.Params[j]
-	for _, in := range an.Instrs(g, false) {
-		switch x := in.(type) {
-		case *ssa.MapUpdate:
-			if an.Resolve(x.Map) == ssa.Value(p) {
-				return true
-			}
-		case ssa.CallInstruction:
-			if h := k.ix.Callee(x.Common()); h != nil {
-				for i, a := range x.Common().Args {
-					if an.Resolve(a) == ssa.Value(p) && k.mayWriteMapParam(h, i, depth+1) {
-						return true
-					}
-				}
-			}
-		}
-	}
-	return false
-}
-
-// closureWrites: call is a direct call of a function literal of its own function that captured the
-// variable holding map m; returns the element assignments the literal makes to it.
-func (k *c07k) closureWrites(call *ssa.Call, m ssa.Value) []*ssa.MapUpdate {
-	mc, ok := an.Resolve(call.Call.Value).(*ssa.MakeClosure)
-	if !ok {
-		return nil
-	}
-	g, ok := mc.Fn.(*ssa.Function)
-	if !ok || g.Parent() != call.Parent() {
-		return nil
-	}
-	var out []*ssa.MapUpdate
-	for i, b := range mc.Bindings {
-		al, ok := b.(*ssa.Alloc)
-		if !ok || i >= len(g.FreeVars) || an.UniqueStore(al) == nil || an.Resolve(an.UniqueStore(al)) != m {
-			continue
-		}
-		for _, in := range an.Instrs(g, false) {
-			up, ok := in.(*ssa.MapUpdate)
-			if !ok {
-				continue
-			}
-			if ld, ok := up.Map.(*ssa.UnOp); ok && ld.Op == token.MUL && ld.X == ssa.Value(g.FreeVars[i]) {
-				out = append(out, up)
-			}
-		}
-	}
-	return out
-}
-
-// mapWrites: the instructions of fn that insert into map m (element assignment, a call of an
-// in-package function that assigns an element of the corresponding parameter, or a call of a function
-// literal that captured the map and assigns an element).
-func (k *c07k) mapWrites(fn *ssa.Function, m ssa.Value) []ssa.Instruction {
-	var out []ssa.Instruction
-	for _, in := range an.Instrs(fn, false) {
-		switch x := in.(type) {
-		case *ssa.MapUpdate:
-			if an.Resolve(x.Map) == m {
-				out = append(out, in)
-			}
-		case *ssa.Call:
-			if len(k.closureWrites(x, m)) > 0 {
-				out = append(out, in)
-				continue
-			}
-			if g := k.ix.Callee(&x.Call); g != nil {
-				for i, a := range x.Call.Args {
-					if an.Resolve(a) == m && k.mayWriteMapParam(g, i, 0) {
-						out = append(out, in)
-					}
-				}
-			}
-		}
-	}
-	return out
-}
+// P2: the threshold fan-out (see c07n_flow.go: outputs, fanEffect2, fanAfter)
 
 // capturedValue: v is (a load of) a free variable of a function literal; returns the single value the
 // captured variable is assigned in the enclosing function.
@@ -940,10 +735,10 @@ func c07messageRootOf(v ssa.Value) (ssa.Value, bool) {
 
 // grouping decides whether map value mv (in function fn) is the grouping of list by message root:
 // every element of list is appended, unconditionally, to the group keyed by its own MessageRoot().
-func (k *c07k) grouping(fn *ssa.Function, mv, list ssa.Value, depth int) c07v {
+func (k *c07k) grouping(fn *ssa.Function, mv ssa.Value, isList func(ssa.Value) bool, depth int) c07v {
 	mv = an.Resolve(mv)
 	if mk, ok := mv.(*ssa.MakeMap); ok {
-		return k.groupingLocal(fn, mk, list)
+		return k.groupingLocal(fn, mk, isList)
 	}
 	call, ri, ok := c07resultOf(mv)
 	if !ok || depth > 2 {
@@ -955,7 +750,7 @@ func (k *c07k) grouping(fn *ssa.Function, mv, list ssa.Value, depth int) c07v {
 	}
 	j := -1
 	for i, a := range call.Call.Args {
-		if an.Resolve(a) == an.Resolve(list) || an.Equiv(a, list) {
+		if isList(a) {
 			j = i
 		}
 	}
@@ -980,10 +775,11 @@ func (k *c07k) grouping(fn *ssa.Function, mv, list ssa.Value, depth int) c07v {
 	if made == nil {
 		return c07Unsure(an.FuncName(g) + " never returns a map made by itself")
 	}
-	return k.grouping(g, made, g.Params[j], depth+1)
+	lp := g.Params[j]
+	return k.grouping(g, made, func(v ssa.Value) bool { return an.Resolve(v) == ssa.Value(lp) }, depth+1)
 }
 
-func (k *c07k) groupingLocal(fn *ssa.Function, mk *ssa.MakeMap, list ssa.Value) c07v {
+func (k *c07k) groupingLocal(fn *ssa.Function, mk *ssa.MakeMap, isList func(ssa.Value) bool) c07v {
 	var ups []*ssa.MapUpdate
 	for _, in := range an.Instrs(fn, false) {
 		if up, ok := in.(*ssa.MapUpdate); ok && an.Resolve(up.Map) == ssa.Value(mk) {
@@ -1062,7 +858,7 @@ func (k *c07k) groupingLocal(fn *ssa.Function, mk *ssa.MakeMap, list ssa.Value) 
 			out = out.and(c07Unsure("collection of the grouping loop is not recognised"))
 			continue
 		}
-		if !(an.Resolve(coll) == an.Resolve(list) || an.Equiv(coll, list)) || !(an.H07ElemOf(l, elems[0]) || l.ElemOf(elems[0])) {
+		if !isList(coll) || !(an.H07ElemOf(l, elems[0]) || l.ElemOf(elems[0])) {
 			switch an.Resolve(coll).(type) {
 			case *ssa.Parameter, *ssa.Slice:
 				out = out.and(c07Bad("grouping loop does not range over the (whole) stored list parameter"))
@@ -1134,11 +930,47 @@ func (k *c07k) statusIs(v ssa.Value, want int64, depth int) c07v {
 		return out
 	case *ssa.Const:
 		return c07Bad("flag is a constant")
+	case *ssa.Phi:
+		// `exempt := false; switch status { case Exempt: exempt = true }`: a variable that is true exactly on the exempt edge
+		return k.statusIsEnum(x, constant.MakeBool(true), want, depth)
 	}
 	if src, ok := c07capturedValue(v); ok && depth <= 3 {
 		return k.statusIs(src, want, depth+1)
 	}
+	// a field of a parameter object (`req.exempt`, `b.exempt`): every value stored into that field in the package
+	if key, ok := c07fieldRead(v); ok && depth <= 3 {
+		out, n := c07Ok(), 0
+		for _, fn := range k.ix.Funcs {
+			for _, in := range an.Instrs(fn, false) {
+				st, isSt := in.(*ssa.Store)
+				if !isSt {
+					continue
+				}
+				if fa, isFA := st.Addr.(*ssa.FieldAddr); isFA && an.FieldKey(fa.X.Type(), fa.Field) == key {
+					n++
+					out = out.and(k.statusIs(st.Val, want, depth+1))
+				}
+			}
+		}
+		if n > 0 {
+			return out
+		}
+		return c07Unsure("flag is a struct field that is never assigned in the package")
+	}
 	return c07Unsure("origin of the exempt flag is not recognised")
+}
+
+// fieldRead: v reads a struct field (x.f or *(&x.f)); returns the field's key.
+func c07fieldRead(v ssa.Value) (string, bool) {
+	switch x := v.(type) {
+	case *ssa.Field:
+		return an.FieldKey(x.X.Type(), x.Field), true
+	case *ssa.UnOp:
+		if fa, ok := x.X.(*ssa.FieldAddr); ok && x.Op == token.MUL {
+			return an.FieldKey(fa.X.Type(), fa.Field), true
+		}
+	}
+	return "", false
 }
 
 // fromDeadlinerC: the duty whose keys are deleted (used at instruction at) was received from
